@@ -137,6 +137,20 @@ def observe(recipe, val, th):
         rec("variables", lambda: sorted(v.name for v in get_all_variables(e)))
         rec("problem.variables", lambda: [v.name for v in Problem().minimize(e).variables])
         rec("degree", lambda: An.compute_degree(e))
+
+        def warm_degree():
+            # a fresh tree whose sub-expressions were classified on their own first (public queries)
+            from optyx.core.expressions import Expression
+            b2, e2 = K.build_recipe(recipe, val)
+            for sub in K.reachable(e2)[:-1]:
+                if isinstance(sub, Expression):
+                    try:
+                        sub.degree
+                        sub.is_linear()
+                    except RecursionError:
+                        pass
+            return An.compute_degree(e2), e2.degree
+        rec("degree_warm", warm_degree)
         rec("evaluate", lambda: e.evaluate(point))
         rec("compile", lambda: C.compile_expression(e, V)(x))
         rec("gradient", lambda: [A.gradient(e, v).evaluate(point) for v in V])
@@ -192,6 +206,9 @@ def check_tree(tag, recipe, ths, planted=False, budget=300):
                     res.append(proved(what) if ok and not planted else violation(sig, f"{what}: {got} but the formula mentions {want_vars}", dict(payload, ob=name, kind="struct")))
                 elif name == "degree":
                     degs[(th, tuple(dec))] = got
+                elif name == "degree_warm":
+                    degs[(th, tuple(dec), "sub-expressions classified first: compute_degree")] = got[0]
+                    degs[(th, tuple(dec), "sub-expressions classified first: .degree")] = got[1]
                 elif name in ("evaluate", "compile"):
                     g = got.reshape(-1)[0] if isinstance(got, np.ndarray) else got
                     res.append(K.decide(smt.eq(g, oval), pc, dom, what, sig, dict(payload, ob=name), allv, QT[_TIER]))
@@ -437,6 +454,8 @@ def replay(payload):
                     out = observe(recipe, val, th)
             if payload["kind"] == "degree":
                 degs.add(str(out["degree"]))
+                if not isinstance(out.get("degree_warm"), BaseException):
+                    degs.update(str(d_) for d_ in out["degree_warm"])
                 continue
             got = out.get(name)
             if isinstance(got, BaseException):
